@@ -609,6 +609,10 @@ private:
                                 if( ++i == second )
                                     break;
 
+                                // the run was clamped to the row: no room for the low nibble
+                                if( dst_it == dst_end )
+                                    break;
+
                                 *dst_it++ = this->_palette[ packed_indices & 0x0f ];
                             }
                         }
